@@ -519,11 +519,12 @@ def run_property(prop, tier, obligations, meta):
             ob.update(ob["thorough"])
         mine = [k for k in kfs if k.get("harness") == ob["name"]]
         if mine:
-            ob["defs"] = list(ob.get("defs", [])) + ["KF_EXCLUDE_" + k["id"] for k in mine]
+            base_defs = list(ob.get("defs", []))
+            ob["defs"] = base_defs + ["KF_EXCLUDE_" + k["id"] for k in mine]
             for k in mine:
                 twin = dict(ob)
                 twin["name"] = ob["name"] + "__kf_" + k["id"]
-                twin["defs"] = list(ob.get("defs", [])) + ["KF_ONLY_" + k["id"]]
+                twin["defs"] = base_defs + ["KF_ONLY_" + k["id"]]
                 twin["expect_fail"] = k.get("expect_fail", [""])
                 twin["kf"] = k
                 obs.append(twin)
